@@ -113,6 +113,100 @@ print(json.dumps(rows))
 
 
 # ------------------------------------------------------------------------------------------------------------------
+# (i') histories: re-configuration inside ONE process
+# ------------------------------------------------------------------------------------------------------------------
+OPS = {"configure-keys": ("configure", {"keys_to_sanitize": ["X-Custom"]}), "configure-markers": ("configure", {"sensitive_markers": ["Zeta"]}),
+       "extend-keys": ("extend", {"keys_to_sanitize": ["customer_ref"]}), "extend-markers": ("extend", {"sensitive_markers": ["Trace"]})}
+_hstate: dict = {}
+
+
+def _reset_config() -> None:
+    import schemathesis
+    from schemathesis.core.output import sanitization as sz
+
+    schemathesis.sanitization.configure(keys_to_sanitize=sorted(sz.DEFAULT_KEYS_TO_SANITIZE),
+                                        sensitive_markers=sorted(sz.DEFAULT_SENSITIVE_MARKERS))
+
+
+def hist_observe(item: tuple[int, dict, bool]) -> dict:
+    """Replay one configuration history through the PUBLIC module-level API of this very process (no `config=` argument anywhere):
+    configure()/extend() for C steps; for S steps the value is rendered by sanitize_value, sanitize_url (the same URL every time the
+    name recurs), Case.as_curl_command and - when with_writers - the real VCR and HAR writers."""
+    idx, h, with_writers = item
+    import schemathesis
+    from schemathesis.core.output.sanitization import sanitize_url, sanitize_value
+
+    if "schema" not in _hstate:
+        _hstate["schema"] = schemathesis.openapi.from_dict({"openapi": "3.0.2", "info": {"title": "t", "version": "1"},
+                                                            "paths": {"/a": {"get": {"responses": {"200": {"description": "ok"}}}}}})
+    schema = _hstate["schema"]
+    schema.base_url = "http://h%d.example" % idx
+    op = schema["/a"]["GET"]
+    canary = "Cnry%dHq" % idx
+    outs = []
+    _reset_config()
+    try:
+        for k, step in enumerate(h["steps"], 1):
+            if step["kind"] == "C":
+                if step["op"] == "reset":
+                    _reset_config()
+                else:
+                    fn, kw = OPS[step["op"]]
+                    getattr(schemathesis.sanitization, fn)(**kw)
+                continue
+            name = text(step["name"])
+
+            def out(form: str, rendered: str) -> None:
+                outs.append({"step": k, "form": form, "redacted": canary not in rendered})
+
+            d = {name: [canary]}
+            sanitize_value(d)
+            out("value", json.dumps(d))
+            url = "http://h%d.example/p?%s=%s" % (idx, quote(name, safe=""), canary)  # identical across re-configurations
+            out("url", sanitize_url(url))
+            out("curl", op.Case(headers={name: canary}, query={name: canary}).as_curl_command())
+            if with_writers:
+                from . import c16
+
+                st = c16._setup()
+                rec = st["Recorder"](label="GET /a")
+                c16.make_exchange(st, rec, cid="h%dk%d" % (idx, k), url=url, req_headers={name: canary},
+                                  resp_headers={"content-type": ["application/json"], name.lower(): [canary]},
+                                  checks=[("chk", 0, None, "")])
+                ev = st["events"]
+                import uuid
+
+                r = c16.run_reporters(st, [ev.ScenarioFinished(id=uuid.uuid4(), phase=st["PhaseName"].FUZZING, suite_id=uuid.uuid4(),
+                                                               label="GET /a", status=st["Status"].SUCCESS, recorder=rec,
+                                                               elapsed_time=0.01, skip_reason=None, is_final=False),
+                                           ev.EngineFinished(running_time=0.1)], sanitize=True, snapshots=False)
+                if r["crashAt"] or r["vcr.yaml"] is None or r["har.json"] is None:
+                    raise RuntimeError("cassette writers failed in history %d: %s" % (idx, r["crashSite"]))
+                out("vcr", r["vcr.yaml"])
+                out("har", r["har.json"])
+    finally:
+        _reset_config()
+    return {"steps": [{"kind": s["kind"], "op": s["op"], "name": s["name"]} for s in h["steps"]], "outs": outs, "idx": idx}
+
+
+def recurs_across_config(h: dict) -> bool:
+    """The same name is rendered, then the configuration changes, then it is rendered again."""
+    seen: dict = {}
+    changed_since: dict = {}
+    for s in h["steps"]:
+        if s["kind"] == "C":
+            for n in seen:
+                changed_since[n] = True
+        else:
+            n = tuple(s["name"])
+            if seen.get(n) and changed_since.get(n):
+                return True
+            seen[n] = True
+            changed_since[n] = False
+    return False
+
+
+# ------------------------------------------------------------------------------------------------------------------
 # (ii) end to end
 # ------------------------------------------------------------------------------------------------------------------
 def b64_cores(secret: str) -> list[str]:
@@ -269,16 +363,20 @@ def name_class(name: str, cfg: str, sens: dict, route: str = "") -> str:
     return ("sensitive" if sens.get((low, cfg)) else "plain") + ("" if cfg == "default" else ":" + cfg)
 
 
-def judge(ctx: Ctx, units: list[dict], runs: list[dict], tag: str = "obs"):
+def judge(ctx: Ctx, units: list[dict], runs: list[dict], tag: str = "obs", hists: list[dict] | None = None):
     f = ctx.path("%s.json" % tag)
-    tlc.write_json(f, {"units": units, "runs": [{"cfg": r["cfg"], "sanitize": r["sanitize"], "routes": r["routes"]} for r in runs]})
+    tlc.write_json(f, {"units": units, "runs": [{"cfg": r["cfg"], "sanitize": r["sanitize"], "routes": r["routes"]} for r in runs],
+                       "hists": [{"steps": h["steps"], "outs": h["outs"]} for h in hists or []]})
     found: list = []
     res = tlc.require_ok(tlc.run_tlc("SanitizeJudge", "SanitizeJudge.cfg", env={"OBS_FILE": f}, workers=4, timeout=1800,
                                      on_json=lambda t, d: found.append(d), want_prints=False), "SanitizeJudge")
     unit_bad: dict[int, set] = {}
     run_bad: dict[int, set] = {}
+    hist_bad: dict[int, set] = {}
     for d in found:
-        (unit_bad if d["what"] == "unit" else run_bad).setdefault(d["i"] - 1, set()).update(tuple(x) for x in d["v"])
+        {"unit": unit_bad, "run": run_bad, "hist": hist_bad}[d["what"]].setdefault(d["i"] - 1, set()).update(tuple(x) for x in d["v"])
+    if hists is not None:
+        return unit_bad, run_bad, res, hist_bad
     return unit_bad, run_bad, res
 
 
@@ -307,6 +405,19 @@ def run(ctx: Ctx) -> Outcome:
             units += rows
     t_unit = time.time() - t1
 
+    # (i') histories: one process, re-configured between calls -----------------------------------------------------
+    hs: list[dict] = []
+    res_h = tlc.require_ok(tlc.run_tlc("SanitizeHist", "SanitizeHist_%s.cfg" % ("quick" if ctx.quick else "thorough"), workers=1,
+                                       timeout=1800, want_prints=False, on_json=lambda t, d: hs.append(d)), "SanitizeHist enumeration")
+    for inv in res_h.violated:
+        out.violations.append(Violation("C15:spec:" + inv, "design invariant %s violated in SanitizeHist.tla" % inv,
+                                        {"kind": "spec", "invariant": inv, "trace": res_h.counterexample[:60]}))
+    recurring = [i for i, h in enumerate(hs) if recurs_across_config(h)]
+    with_writers = set(common.sample(rng, recurring, 16 if ctx.quick else 120))
+    t1 = time.time()
+    hobs = common.pmap(hist_observe, [(i, h, i in with_writers) for i, h in enumerate(hs)])
+    t_hist = time.time() - t1
+
     # (ii) end to end ----------------------------------------------------------------------------------------------
     plan = plan_runs(ctx, pool)
     t1 = time.time()
@@ -316,7 +427,20 @@ def run(ctx: Ctx) -> Outcome:
     errors = [o["error"] for o in observed if "error" in o]
     if errors:
         raise RuntimeError("%d end-to-end runs unusable, e.g. %s" % (len(errors), errors[0]))
-    unit_bad, run_bad, jres = judge(ctx, units, observed)
+    unit_bad, run_bad, jres, hist_bad = judge(ctx, units, observed, hists=hobs)
+    for i, (h, o) in enumerate(zip(hs, hobs)):  # driver-side comparison with the exported outputs of the machine
+        mine = {(x["form"], x["step"], "over-redacted" if x["redacted"] else "leak") for x in o["outs"]
+                if x["redacted"] != h["steps"][x["step"] - 1]["out"]}
+        if mine != hist_bad.get(i, set()):
+            raise tlc.TLCFailure("history %d: driver %s, TLC %s - machinery inconsistency" % (i, sorted(mine), sorted(hist_bad.get(i, set()))))
+        if mine:
+            shape = " ; ".join(st["op"] if st["kind"] == "C" else "S(%s)" % text(st["name"]) for st in h["steps"])
+            for form, step, direction in sorted(mine):
+                earlier = any(st["kind"] == "S" and st["name"] == h["steps"][step - 1]["name"] for st in h["steps"][:step - 1])
+                out.violations.append(Violation(
+                    "C15:history:%s:%s:%s" % (form, direction, "same-name-rendered-before-reconfiguration" if earlier else "first-rendering"),
+                    "history [%s]: step %d rendered through %s is %s (the configuration current at that call says otherwise)" % (
+                        shape, step, form, direction), {"kind": "hist", "hist": h, "idx": i, "writers": i in with_writers}))
 
     # driver-side comparison against the exported expectations; must coincide with TLC's verdict
     for i, u in enumerate(units):
@@ -363,8 +487,11 @@ def run(ctx: Ctx) -> Outcome:
 
     not_ex = sum(len(r["not_exercised"]) for r in observed)
     out.coverage = {
-        "states": res.distinct, "transitions": res.generated,
-        "traces_validated_against_impl": len(units) + len(observed),
+        "states": res.distinct + res_h.distinct, "transitions": res.generated + res_h.generated,
+        "traces_validated_against_impl": len(units) + len(observed) + len(hobs),
+        "config_histories": len(hs), "config_histories_same_name_across_reconfiguration": len(recurring),
+        "config_histories_with_cassette_writers": len(with_writers), "history_outputs": sum(len(o["outs"]) for o in hobs),
+        "hist_s": round(t_hist, 1),
         "judge_states": jres.distinct,
         "evaluations": len(units) + sum(len(r["routes"]) * len(SINKS) for r in observed),
         "distinct_nontrivial": sum(1 for n in names if n["sensitive"]) + n_nontrivial,
@@ -387,6 +514,7 @@ def run(ctx: Ctx) -> Outcome:
         "a secret is recognised in a sink in plain, percent-encoded and base64 (any alignment) form only",
         "the loopback server log is the ground truth for which routes were exercised; routes whose canary never reached the wire are not judged",
         "console = stdout+stderr of `st run` without the curl lines; curl = those lines; file sinks are read after the CLI process exited",
+        "configuration histories are replayed through the module-level API of one process per worker; every history starts and ends with the defaults re-installed through configure()",
         "custom configurations are installed through SCHEMATHESIS_HOOKS + schemathesis.sanitization.configure (replace semantics)",
         "which sink shows which field when nothing is redacted (MustCarry) is part of the specification",
     ]
@@ -411,6 +539,11 @@ def replay(ctx: Ctx, data: dict) -> Outcome:
         for i, v in bad.items():
             for form, _, direction in v:
                 out.violations.append(Violation("C15:unit:%s:%s" % (form, direction), "%s %s" % (text(u["name"]), direction), data))
+    elif data.get("kind") == "hist":
+        o = hist_observe((data["idx"], data["hist"], data.get("writers", False)))
+        _, _, _, bad = judge(ctx, [], [], "replay", hists=[o])
+        for form, step, direction in sorted(bad.get(0, set())):
+            out.violations.append(Violation("C15:history:%s:%s" % (form, direction), "step %d via %s: %s" % (step, form, direction), data))
     elif data.get("kind") == "e2e":
         o = e2e_run((data["idx"], data["run"]))
         if "error" in o:
@@ -431,7 +564,14 @@ def selftest(ctx: Ctx) -> bool:
     runs = [{"cfg": "default", "sanitize": True, "routes": [{"route": "user-header", "name": name, "present": present}]},
             {"cfg": "default", "sanitize": True, "routes": [{"route": "user-header", "name": name, "present": dict(present, vcr=True)}]},
             {"cfg": "default", "sanitize": False, "routes": [{"route": "user-header", "name": name, "present": dict(present, vcr=True)}]}]
-    ub, rb, _ = judge(ctx, units, runs, "selftest")
+    xc = [ord(c) for c in "X-Custom"]
+    steps = [{"kind": "S", "op": "-", "name": xc}, {"kind": "C", "op": "configure-keys", "name": []}, {"kind": "S", "op": "-", "name": xc}]
+    good_h = {"steps": steps, "outs": [{"step": 1, "form": "url", "redacted": False}, {"step": 3, "form": "url", "redacted": True}]}
+    stale_h = {"steps": steps, "outs": [{"step": 1, "form": "url", "redacted": False}, {"step": 3, "form": "url", "redacted": False}]}
+    ub, rb, _, hb = judge(ctx, units, runs, "selftest", hists=[good_h, stale_h])
+    if hb != {1: {("url", 3, "leak")}}:
+        print("selftest: history judge gave", hb)
+        return False
     ok = ub == {1: {("header-list", "-", "leak")}, 2: {("header-list", "-", "over-redacted")}} and \
         rb == {1: {("user-header", "vcr", "leak")}, 2: {("user-header", "curl", "missing"), ("user-header", "junit", "missing"),
                                                         ("user-header", "har", "missing")}}
